@@ -118,6 +118,58 @@ def gen_history(rng, nops, hostile=False, big=False):
     return lines
 
 
+SIZES = (0, 1, 15, 16, 127, 128, 255, 256, 257, 1023, 1024, 4095, 4096, 4097, 65535, 65536, 65537, 100000)
+DEADLINES = (2**31 - 1, 2**31, 2**32 - 1, 2**32, 2**32 + 5, 2**62, 2**63 - 1, 0, -1, -2**31, -2**63)
+
+
+def boundary_history(rng, big):
+    """lengths and counts around powers of two (length fields, loop counters), extreme deadlines"""
+    nsrv = rng.choice((1, 2))
+    lines = ["cfg %s 0,n,5" % ",".join(["0"] * nsrv)]
+    now = 1000
+    sizes = [x for x in SIZES if big or x <= 4097]
+    for _ in range(rng.randrange(4, 12)):
+        kl = rng.choice((1, 2, 31, 32, 255, 256, 257, 1000) + ((65536, 70001) if big else ()))
+        k = bytes(rng.choice(b"kK\x01\xff") for _ in range(kl))
+        vl = rng.choice(sizes)
+        v = "r%02xx%d" % (rng.randrange(256), vl) if vl > 64 else hx(bytes(rng.randrange(256) for _ in range(vl)))
+        nt = rng.choice((0, 1, 2, 7, 8, 15, 16, 17, 127, 128, 129, 255, 256, 257) + ((600,) if big else ()))
+        tl = rng.choice((1, 2, 8, 255, 256, 257) if nt < 20 else (1, 2, 5))
+        ts = [b"%d_" % i + bytes(rng.choice(b"tT\x02\xfe") for _ in range(tl)) for i in range(nt)]
+        d = rng.choice(DEADLINES + (now + 100,) * 6)
+        c = rng.randrange(3)
+        lines.append("store %d %d %s %s %s %d" % (c, now, hx(k), v, trig_word(ts), d))
+        for c2 in (0, 1, 2, 0):
+            lines.append("fetch %d %d %s %d" % (c2, now, hx(k), rng.choice((0, 1, 1))))
+        if ts and rng.random() < 0.7:
+            lines.append("rise %d %s" % (rng.randrange(3), rng.choice((ts[0], ts[-1], ts[len(ts) // 2])).hex()))
+            for c2 in (0, 1, 2):
+                lines.append("fetch %d %d %s 1" % (c2, now, hx(k)))
+        now += rng.choice((0, 1, 50))
+    return lines
+
+
+def churn_history(rng, n):
+    """client 0 (L1) holds k; another node performs n stores on the same server (k itself or other keys) before
+    replacing / invalidating k; client 0 must see the change (generation comparisons must be exact)"""
+    lines = ["cfg 0 0,n,0"]
+    k, o = b"hot", b"other"
+    lines += ["store 1 1000 %s 01 - 900000" % k.hex(), "fetch 0 1000 %s 1" % k.hex(), "fetch 2 1000 %s 1" % k.hex()]
+    mode = rng.randrange(3)
+    for i in range(n):
+        if mode == 0:
+            lines.append("store 1 1000 %s %s - 900000" % (k.hex(), hx(b"v%d" % i)))
+        else:
+            lines.append("store 1 1000 %s %s - 900000" % (o.hex(), hx(b"o%d" % (i % 7))))
+    if mode == 1:
+        lines.append("store 1 1000 %s ffee - 900000" % k.hex())
+    elif mode == 2:
+        lines.append("rise 1 %s" % k.hex())
+        lines.append("store 1 1000 %s ffee - 900000" % k.hex())
+    lines += ["fetch 0 1000 %s 1" % k.hex(), "fetch 2 1000 %s 0" % k.hex(), "fetch 0 1000 %s 0" % k.hex(), "stats 0"]
+    return lines
+
+
 SCRIPT = "abcdefghijk"
 
 
@@ -575,6 +627,11 @@ def main():
     run_stream("exhaustive", hs, True)
     hs = [gen_history(rng, rng.randrange(30, 200), big=(i % 5 == 0)) for i in range(4000 if thorough else 160)]
     run_stream("random", hs, True)
+    hs = [boundary_history(rng, big=thorough or i == 0) for i in range(60 if thorough else 6)]
+    run_stream("boundary", hs, True)
+    ns = [1, 2, 127, 128, 255, 256, 257, 511, 512, 513, 1024, 4096] + ([65535, 65536, 65537] if thorough else [])
+    hs = [churn_history(rng, n) for n in ns for _ in range(3 if thorough else 1)]
+    run_stream("churn", hs, True)
     # ---- the excluded points (NUL / empty names): model must still follow the code; not judged
     hs = [gen_history(rng, rng.randrange(20, 120), hostile=True) for i in range(1200 if thorough else 30)]
     run_stream("hostile", hs, False)
